@@ -2,7 +2,7 @@
 import numpy as np
 from hypothesis import strategies as st
 
-from vf.core import Prop, Result
+from vf.core import Prop, Result, lib_exception_sig
 from vf import gen, chain
 from vf.props.c03 import check_meta
 
@@ -220,15 +220,35 @@ class Interp04(chain.Interp):
         before_a = chain.dense_of(x)
         before_o = chain.dense_of(mpo)
         np.random.seed(7)
-        ok, c = self.guard("vcompress", x.variational_compress, mpo)
+        if small_guess:
+            # a bond-2 guess (or a sweep started from it) can vanish identically; the library then stops at its zero-tensor
+            # assertion or at the 0/0 of its convergence test. Outside the property's domain (insufficient guess): not counted.
+            try:
+                ok, c = True, x.variational_compress(mpo)
+            except (AssertionError, FloatingPointError) as e:
+                s_, in_lib = lib_exception_sig(e)
+                if not in_lib:
+                    raise
+                self.r.classes.append("variational_compress.small_guess_vanished")
+                return
+            except Exception as e:  # noqa
+                s_, in_lib = lib_exception_sig(e)
+                if not in_lib:
+                    raise
+                self.r.fail(f"vcompress.{s_}", f"{e!r} trace={self.trace[-6:]}")
+                return
+        else:
+            ok, c = self.guard("vcompress", x.variational_compress, mpo)
         if not ok:
             return
         self.r.classes.append("variational_compress")
         got = chain.dense_of(c)
         nrm = np.linalg.norm(ref)
-        if small_guess and ins["method"] == "1site":
-            # a one-site sweep cannot enlarge the bonds of a poor (bond 2x2) guess reliably: only the aliasing / sector checks apply
-            self.r.classes.append("variational_compress.small_guess_1site")
+        if small_guess:
+            # an alternating sweep started from a poor (bond 2x2) guess cannot reach a symmetry block in which the guess has no
+            # weight (zero environment -> zero update), with either update; the property claims convergence for a sufficient bond
+            # limit, which a 2x2 guess is not: only the aliasing / sector / label checks apply to these cases
+            self.r.classes.append("variational_compress.small_guess")
         else:
             self.r.check_close("vcompress.result", got, ref, 1e-5 * nrm + 1e-12,
                                f"variational_compress({ins['method']}, small_guess={small_guess}) vs dense mpo@mps")
